@@ -84,9 +84,11 @@ def m1prop(pid, props_file, prefixes, quick=300, thorough=6000, extra=None, spec
                 monitor_prefixes=prefixes, search_n=3000, harness_timeout=1200, extra=extra)
 
 PROPS['C01'] = m1prop('C01', 'theories/Props/C01.v', ['C01', 'panic', 'hang'],
-                      extra=scenario_extra(('C01-callback-registration-not-atomic', 8, 'gated: two concurrent senders on one charge point, the first held inside the request queue and then refused; its callback must never run, the other sender gets its own reply')))
+                      extra=scenario_extra(('C01-callback-registration-not-atomic', 8, 'gated: two concurrent senders on one charge point, the first held inside the request queue and then refused; its callback must never run, the other sender gets its own reply'),
+                                            ('C01-stale-conclusion-after-restart', 12, 'gated: Stop overtakes a conclusion on its way to the callback routine, 12 tries; after Start the first callback gets its own reply (F32)')))
 PROPS['C02'] = m1prop('C02', 'theories/Props/C02.v', ['C02'],
-                      extra=scenario_extra(('C02-outstanding-written-twice', 10, 'gated: the connection drops while the dispatcher is inside ws.Client.Write (the write succeeds); after the reconnection another request is queued: still one outstanding CALL, written once')))
+                      extra=scenario_extra(('C02-outstanding-written-twice', 10, 'gated: the connection drops while the dispatcher is inside ws.Client.Write (the write succeeds); after the reconnection another request is queued: still one outstanding CALL, written once'),
+                                            ('C02-written-twice-after-restart', 11, 'gated: Stop overtakes a ready token, 12 tries; after Start the first request is written exactly once (F31)')))
 PROPS['C07'] = m1prop('C07', 'theories/Props/C07.v', ['C07', 'hang', 'panic'],
                       extra=scenario_extra(('C07-senders-vs-disconnect-deadlock', 6, 'real sockets: 4 goroutines keep sending on a charge point while the central system drops its connection 12 times; every send and the final Stop must return (F30)'),
                                             ('C07-resume-blocks-pump', 9, 'gated: a write fails and the pump sits in the application cancel callback while the connection drops and comes back; Resume must not block the pump, the endpoint keeps working')))
@@ -99,7 +101,9 @@ PROPS['C11'] = Prop('C11', harness='c11', entries=['c11rt', 'm1c', 'm1c_h', 'm1c
                     design_ref='5 C11', confirm_slow=True, monitor_prefixes=['C11'], spec_entries=['c11rt'], search_n=3000, harness_timeout=1200,
                     extra=scenario_extra(('C11-stale-pending-after-session-end', 7, 'bare ocppj.Server without an application disconnect handler: a session ends with a request outstanding, the same id reconnects, the reply to the new session\'s first request must be accepted')))
 PROPS['C16'] = m1prop('C16', 'theories/Props/C16.v', ['C16', 'panic'], spec_entries=['m1c_fresh'],
-                      extra=scenario_extra(('C16-send-racing-stop', 5, 'real sockets: 4 goroutines send on a charge point while Stop is called, 40 rounds; nothing may crash or block (F10)')))
+                      extra=scenario_extra(('C16-send-racing-stop', 5, 'real sockets: 4 goroutines send on a charge point while Stop is called, 40 rounds; nothing may crash or block (F10)'),
+                                            ('C16-stale-ready-token-after-restart', 11, 'gated: Stop arrives while a ready token is unconsumed (pump held in the cancel callback), 12 tries; after Start the first request is written exactly once (F31)'),
+                                            ('C16-stale-conclusion-after-restart', 12, 'gated: Stop arrives while a conclusion waits for the busy callback routine, 12 tries; after Start the first callback gets its own reply (F32)')))
 
 M1_NOTE = 'Trusted: Coq kernel + vm_compute, extraction (ExtrOcamlBasic only), the Go harness with its ws doubles and quiescence detector, the hand-written LTS. Interleavings finer than one handler / one pump iteration are not in this model (DESIGN.md section 8).'
 MANIFEST_TEXT['C01'] = dict(
